@@ -28,7 +28,7 @@ def plist(c):
 
 def correspond(ctx):
     rng, tier = ctx["rng"], ctx["tier"]
-    n = 8 if tier == "quick" else 60
+    n = 8 if tier == "quick" else 160
     cases, meta = [], []
     rejected = 0
     for k in range(n):
